@@ -35,6 +35,7 @@ def run(tier, seed, rep):
         mc = ex.submit(model, tier)
         defs = [MG.prop_special(k + 1, k) for k in range(8)]
         defs += [MG.prop_def(rng, len(defs) + k + 1) for k in range(sz["sample"])]
+        defs += MG.prop_extra(len(defs) + 1)
         by_id = {E["id"]: E for E in defs}
         files = {E["id"]: MG.prop_module(E, rng) for E in defs}
         exe, failed = pipe.build_corpus("c15", files)
